@@ -190,8 +190,12 @@ class Layout:
                     cc = rng.choice(contchars) if not self.plain else "&"
                     lines.append("     " + cc + pc)
                     self.features.add("fixed_cont")
+                if j < len(pieces) - 1 and not self.plain and rng.random() < 0.15 and (len(lines[-1]) < 50 or not length_limit):
+                    lines[-1] += rng.choice(["  ! zn3 trailing", " ! zn3 it's trailing", "   !zn3"])  # a comment after a line that is continued
+                    self.features.add("fixed_trailing_comment_on_continued_line")
                 if j < len(pieces) - 1 and not self.plain and rng.random() < 0.2:
-                    lines.append(rng.choice(["C interleaved zn8", "", "* zn9", "c", "!   zn1", "   ", "      ", "          ", " " * 30]))
+                    lines.append(rng.choice(["C interleaved zn8", "", "* zn9", "c", "!   zn1", "   ", "      ", "          ", " " * 30,
+                                             "       ! zn4 comment from column 8", " " * 14 + "! zn5 indented comment", "  ! zn6 comment from column 3"]))
                     self.features.add("fixed_cont_interleaved")
             if inline and (len(lines[-1]) + len(inline) <= 72 or not length_limit):
                 lines[-1] += inline
@@ -203,6 +207,9 @@ class Layout:
                     if l and l[0] not in "Cc*!" and len(l) <= 72 and rng.random() < 0.4 and "!" not in l:
                         lines[k] = l.ljust(72) + rng.choice(["SEQ00010", "zz = 'x", "! x", "12345678"])
                         self.features.add("sequence_field")
+                    elif l and l[0] not in "Cc*!" and len(l) <= 72 and "!" in l and rng.random() < 0.3:
+                        lines[k] = l.ljust(72) + rng.choice(["SEQ00020", "87654321"])  # ignored columns after a trailing comment / inline doc
+                        self.features.add("sequence_field_after_comment")
             out += lines
             out += post_lines
         return "\n".join(out) + "\n"
